@@ -691,6 +691,7 @@ func (s *Server) Invoke(responseWriter http.ResponseWriter, invoke *interop.Invo
 		invoke.DeadlineNs = fmt.Sprintf("%d", metering.Monotime()+reserveResp.Token.FunctionTimeout.Nanoseconds())
 		go func() {
 			if initCompletionResp, err := s.awaitInitialized(); err != nil {
+				verifhook.Point("invoke.initFailed")
 				switch err {
 				case ErrInitResetReceived, ErrInitDoneFailed:
 					// For init failures, cache the response so they can be checked later
